@@ -179,6 +179,13 @@ def concrete(n, vals):
 
 
 def replay(data):
+    if isinstance(data, dict) and data.get('kind') == 'bypass-comment':
+        import bert_e.workflow.gitwaterflow as gwf
+        common.install_common_stubs()
+        gwf.setup({})
+        out = comment_run(data['who'], data['text'])
+        asks = 'bypass_build_status' in data['text']
+        return (out == 'pass') != (asks and data['who'] == 'admin') or (asks and data['who'] != 'admin' and out != 'refused')
     import bert_e.workflow.gitwaterflow as gwf
     if data.get('kind') == 'authoropts':
         from . import authoropts
@@ -278,6 +285,71 @@ def handler_part(rep):
         rep.cexs.append(Cex('C06', sig, v, rep_ok is not None, '%s (%d symbolic paths)' % (sig, len(vs))))
 
 
+# -- the bypass as it arrives through comments -------------------------------------------------
+COMMENTERS = ['admin', 'author', 'other']           # the author is not an admin here
+BYPASS_TEXTS = ['@robot bypass_build_status', '@robot bypass_build_status create_pull_requests',
+                '/bypass_build_status /create_pull_requests', '@robot create_pull_requests bypass_build_status',
+                '@robot create_pull_requests', '@robot: bypass_build_status, create_pull_requests']
+
+
+def comment_run(who, text, status='FAILED'):
+    """One comment, then the real handle_comments and the real gate on a red build."""
+    import bert_e.workflow.gitwaterflow as gwf
+    from bert_e import exceptions as ex
+    flags = dict(bypass_build_status=False, has_ab=False, ab_build=False, has_key=True)
+    sval = {nm: ('SUCCESSFUL' if k else status) for k, nm in enumerate(names(2))}
+    job, wbs, asked = build(2, sval, flags, False)
+    job.settings.maps[-1].update(admins=['admin'])
+
+    class C(common.HostNames):
+        def __init__(self, author, text):
+            self.author, self.text = author, text
+    job.pull_request = C('author', None)
+    job.pull_request.id = 1
+    job.pull_request.comments = [C(who, text)]
+    job.bert_e.client = types.SimpleNamespace(login='robot')
+    try:
+        gwf.handle_comments(job)
+    except ex.NotEnoughCredentials:
+        return 'refused'
+    except ex.BertE_Exception as e:
+        return 'comment:' + type(e).__name__
+    return run(job, wbs)
+
+
+def comment_harness(ctx):
+    who = COMMENTERS[ctx.choose('commenter', len(COMMENTERS))]
+    text = BYPASS_TEXTS[ctx.choose('text', len(BYPASS_TEXTS))]
+    out = comment_run(who, text)
+    asks = 'bypass_build_status' in text
+    ctx.stats.obligations += 1
+    # the red build may only be passed over when an admin (who is not the author) asked for it
+    bad = (out == 'pass') != (asks and who == 'admin')
+    if asks and who != 'admin' and out != 'refused':
+        bad = True
+    return dict(who=who, text=text, out=out, bad=bad)
+
+
+def comment_part(rep):
+    import bert_e.workflow.gitwaterflow as gwf
+    gwf.setup({})
+    results, st = explore(comment_harness)
+    rep.add_stats(st, 'bypass through comments')
+    rep.functions_encoded += ['gitwaterflow.handle_comments / Reactor.handle_options feeding the gate '
+                              '(bypass_build_status written by an admin, the author, somebody else; alone, first, last)']
+    rep.bounds['bypass comments'] = dict(commenters=COMMENTERS, texts=BYPASS_TEXTS)
+    outs = set(r['out'] for _, r in results)
+    if not {'pass', 'failed', 'refused'} <= outs:
+        rep.error('vacuity: bypass comments reached %s' % sorted(outs))
+    for _, r in results:
+        if r['bad']:
+            data = dict(kind='bypass-comment', who=r['who'], text=r['text'])
+            rep.cexs.append(Cex('C06', 'a red build is passed over (or not) on the word of the wrong commenter',
+                                data, replay(data), 'comment %r by %s -> %s' % (r['text'], r['who'], r['out'])))
+            break
+        rep.validated += 1
+
+
 def _one(arg):
     n, twin = arg
     results, st = explore(make_harness(n, twin))
@@ -333,6 +405,7 @@ def check(rep):
         rep.error('vacuity: outcome classes reached = %s' % sorted(classes))
     if not twin_refuted:
         rep.error('reachability twin not refuted')
+    comment_part(rep)
     handler_part(rep)
     from . import authoropts
     authoropts.check(rep, 'C06', ['bypass_build_status'])
